@@ -534,6 +534,14 @@ func (g *mgen) genReq(kind, id string, order []string, collide float64, focus st
 	rq := &MReq{Kind: kind, ID: id, Replies: map[string]*MReply{}}
 	rq.Orig = g.genOrig(kind, g.rng.Intn(4) == 0)
 	owned := map[string]string{} // target|item -> plugin (the generator's own bookkeeping)
+	// values an item currently has (the runtime's original, then whatever a plugin set last): now and
+	// then a plugin sets an item to the value it already has - which is setting it all the same
+	current := map[string]int{}
+	for _, o := range rq.Orig {
+		if o.Kind != "hook" {
+			current[id+"|"+o.Kind+"|"+o.Key] = o.Val
+		}
+	}
 	touch := 0.22
 	if focus == "C01" || focus == "C02" {
 		touch = 0.3
@@ -553,6 +561,10 @@ func (g *mgen) genReq(kind, id string, order []string, collide float64, focus st
 				}
 				key := id + "|" + it.kind + "|" + it.key
 				o := MOp{Kind: it.kind, Key: it.key, Val: g.valFor(it.kind)}
+				if cv, has := current[key]; has && g.rng.Intn(6) == 0 {
+					o.Val = cv
+				}
+				current[key] = o.Val
 				prev, taken := owned[key]
 				switch {
 				case taken && prev == p:
